@@ -78,9 +78,9 @@ Record SInv (gens : list nat) (s : sstate) : Prop := mkSInv {
   j_acts : map snd (sacts s) = rev (seq 0 (length (sacts s)))
 }.
 
-Lemma SInv_init : forall y gens, 1 <= length gens -> SInv gens (sinit (length gens) y gens).
+Lemma SInv_init : forall y sil gens, 1 <= length gens -> SInv gens (sinit (length gens) y sil gens).
 Proof.
-  intros y gens Hn. constructor; cbn.
+  intros y sil gens Hn. constructor; cbn.
   - reflexivity.
   - exact Hn.
   - constructor.
@@ -155,11 +155,22 @@ Proof.
       - intros u Hu. apply Jarr in Hu. tauto.
       - intros Hc. apply At in Hc. destruct Hc as (_ & [(Hc & _)|Hc]); discriminate. }
     destruct (Jcol Room). intros Hex. exfalso. lia.
+  (* --- SLastA / waiting_.store(0), generation crossed without lambda: the silent NoOperation follows at once *)
+  - destruct (Lt eq_refl) as (L1 & L2 & L3 & L4). lia.
+  - destruct (Lt eq_refl) as (L1 & L2 & L3 & L4).
+    assert (LT : lastb (spc (sthr s t)) = true) by (rewrite Heqs0; reflexivity).
+    intros u Hu. upd_case u t; cbn in *; [repeat split; auto; lia|]. exfalso. (match goal with Hn_ : _ <> t |- _ => apply Hn_ end). apply Juniq; auto.
+  - assert (LT : lastb (spc (sthr s t)) = true) by (rewrite Heqs0; reflexivity).
+    intros u1 u2 Hu1 Hu2. upd_case u1 t; upd_case u2 t; cbn in *; auto;
+      try (symmetry; apply Juniq; auto; fail); try (apply Juniq; auto; fail).
+  - destruct (Lt eq_refl) as (L1 & L2 & L3 & L4). destruct Tt as (_ & _ & _ & Tg).
+    change (rev (seq 1 (length (sacts s))) ++ [0]) with (rev (seq 0 (S (length (sacts s))))).
+    rewrite seq_S, rev_app_distr. cbn. rewrite <- Jacts. f_equal. lia.
   (* --- SLastA / waiting_.store(0) *)
   - destruct (Lt eq_refl) as (L1 & L2 & L3 & L4). lia.
   - destruct (Lt eq_refl) as (L1 & L2 & L3 & L4).
     assert (LT : lastb (spc (sthr s t)) = true) by (rewrite Heqs0; reflexivity).
-    intros u Hu. upd_case u t; cbn in *; [auto|]. exfalso. apply n. apply Juniq; auto.
+    intros u Hu. upd_case u t; cbn in *; [auto|]. exfalso. (match goal with Hn_ : _ <> t |- _ => apply Hn_ end). apply Juniq; auto.
   - assert (LT : lastb (spc (sthr s t)) = true) by (rewrite Heqs0; reflexivity).
     intros u1 u2 Hu1 Hu2. upd_case u1 t; upd_case u2 t; cbn in *; auto;
       try (symmetry; apply Juniq; auto; fail); try (apply Juniq; auto; fail).
@@ -167,7 +178,7 @@ Proof.
   - destruct (Lt eq_refl) as (L1 & L2 & L3 & L4). lia.
   - destruct (Lt eq_refl) as (L1 & L2 & L3 & L4).
     assert (LT : lastb (spc (sthr s t)) = true) by (rewrite Heqs0; reflexivity).
-    intros u Hu. upd_case u t; cbn in *; [repeat split; auto; lia|]. exfalso. apply n. apply Juniq; auto.
+    intros u Hu. upd_case u t; cbn in *; [repeat split; auto; lia|]. exfalso. (match goal with Hn_ : _ <> t |- _ => apply Hn_ end). apply Juniq; auto.
   - assert (LT : lastb (spc (sthr s t)) = true) by (rewrite Heqs0; reflexivity).
     intros u1 u2 Hu1 Hu2. upd_case u1 t; upd_case u2 t; cbn in *; auto;
       try (symmetry; apply Juniq; auto; fail); try (apply Juniq; auto; fail).
@@ -184,11 +195,11 @@ Proof.
     + destruct Hd as [(Hd & _)|Hd]; discriminate.
     + destruct Hd as [(Hs & Hts)|Hl].
       * apply Full in Hu. apply Jarr in Hu. destruct Hu as (_ & [(_ & Hu)|Hu]); [lia|].
-        apply n. apply Juniq; auto.
-      * apply n. apply Juniq; auto.
+        (match goal with Hn_ : _ <> t |- _ => apply Hn_ end). apply Juniq; auto.
+      * (match goal with Hn_ : _ <> t |- _ => apply Hn_ end). apply Juniq; auto.
   - destruct (Lt eq_refl) as (L1 & L2 & L3 & L4). intros _. lia.
   - assert (LT : lastb (spc (sthr s t)) = true) by (rewrite Heqs0; reflexivity).
-    intros u Hu. upd_case u t; cbn in *; [discriminate|]. exfalso. apply n. apply Juniq; auto.
+    intros u Hu. upd_case u t; cbn in *; [discriminate|]. exfalso. (match goal with Hn_ : _ <> t |- _ => apply Hn_ end). apply Juniq; auto.
   - intros Hex. exfalso. lia.
   - assert (LT : lastb (spc (sthr s t)) = true) by (rewrite Heqs0; reflexivity).
     destruct (Lt eq_refl) as (L1 & L2 & L3 & L4).
@@ -198,13 +209,13 @@ Proof.
     + lia.
     + apply Full in Hu. apply Jarr in Hu. destruct Hu as (_ & [(Hs & Hts)|Hl]).
       * destruct (spc (sthr s u)); cbn in Hs; try discriminate; lia.
-      * exfalso. apply n. apply Juniq; auto.
+      * exfalso. (match goal with Hn_ : _ <> t |- _ => apply Hn_ end). apply Juniq; auto.
 Qed.
 
-Lemma SInv_reachable : forall y gens s,
-  1 <= length gens -> sreachable (length gens) y gens s -> SInv gens s.
+Lemma SInv_reachable : forall y sil gens s,
+  1 <= length gens -> sreachable (length gens) y sil gens s -> SInv gens s.
 Proof.
-  intros y gens s Hn (tr & H). revert H. unfold spinrun.
+  intros y sil gens s Hn (tr & H). revert H. unfold spinrun.
   apply (run_invariant sstep (SInv gens)).
   - intros; eapply SInv_step; eauto.
   - now apply SInv_init.
@@ -221,13 +232,13 @@ Definition sentered (s : sstate) (u g : nat) : Prop :=
   g < sgen (sthr s u) \/ (sgen (sthr s u) = g /\ sinside s u).
 
 (** No thread leaves generation g before all participants have entered (arrived in) it. *)
-Theorem bs_no_early_exit : forall y gens s t u g,
-  1 <= length gens -> sreachable (length gens) y gens s ->
+Theorem bs_no_early_exit : forall y sil gens s t u g,
+  1 <= length gens -> sreachable (length gens) y sil gens s ->
   t < length gens -> u < length gens ->
   g < sgen (sthr s t) -> sentered s u g.
 Proof.
-  intros y gens s t u g Hn R Ht Hu Hg.
-  pose proof (SInv_reachable _ _ _ Hn R) as I.
+  intros y sil gens s t u g Hn R Ht Hu Hg.
+  pose proof (SInv_reachable _ _ _ _ Hn R) as I.
   rewrite <- (j_n _ _ I) in Ht, Hu.
   destruct (sgen_window _ _ _ I Ht) as [Et|(Et & _)];
   destruct (sgen_window _ _ _ I Hu) as [Eu|(Eu & Iu)]; unfold sentered; try lia.
@@ -261,15 +272,15 @@ Qed.
 
 (** The action runs at most once per generation, in order (generation k is the k-th action), exactly once for
     every generation some thread has left; a thread that has left generation g finds the action of g run. *)
-Theorem bs_action_once_before_release : forall y gens s,
-  1 <= length gens -> sreachable (length gens) y gens s ->
+Theorem bs_action_once_before_release : forall y sil gens s,
+  1 <= length gens -> sreachable (length gens) y sil gens s ->
   map snd (sacts s) = rev (seq 0 (length (sacts s))) /\
   sstp s <= length (sacts s) <= sstp s + 1 /\
   (forall g, count_occ Nat.eq_dec (map snd (sacts s)) g = if g <? length (sacts s) then 1 else 0) /\
   (forall t g, t < length gens -> g < sgen (sthr s t) ->
                In g (map snd (sacts s)) /\ count_occ Nat.eq_dec (map snd (sacts s)) g = 1).
 Proof.
-  intros y gens s Hn R. pose proof (SInv_reachable _ _ _ Hn R) as I.
+  intros y sil gens s Hn R. pose proof (SInv_reachable _ _ _ _ Hn R) as I.
   pose proof (j_acts _ _ I) as A. pose proof (sacts_bounds _ _ I) as B.
   split; [exact A|]. split; [exact B|]. split.
   - intros g. rewrite A at 1. apply count_rev_seq.
@@ -284,8 +295,8 @@ Qed.
 (** The action is run by the last arriver (the most recent arrival), when every other participant has arrived
     in generation g and spins inside wait(); nobody has left generation g; the action of g has not run before;
     and the release (increment of step_) has not happened: it is this thread's next event. *)
-Theorem bs_action_by_last : forall y gens s t g s',
-  1 <= length gens -> sreachable (length gens) y gens s ->
+Theorem bs_action_by_last : forall y sil gens s t g s',
+  1 <= length gens -> sreachable (length gens) y sil gens s ->
   sstep s (t, OAct g) = Some s' ->
   g = sgen (sthr s t) /\ g = sstp s /\ (exists l, sarrived s = t :: l) /\
   (forall u, u < length gens -> u <> t ->
@@ -293,7 +304,7 @@ Theorem bs_action_by_last : forall y gens s t g s',
   (forall u, u < length gens -> sgen (sthr s u) <= g) /\
   ~ In g (map snd (sacts s)) /\ sacts s' = (t, g) :: sacts s /\ sstp s' = sstp s.
 Proof.
-  intros y gens s t g s' Hn R H. pose proof (SInv_reachable _ _ _ Hn R) as I.
+  intros y sil gens s t g s' Hn R H. pose proof (SInv_reachable _ _ _ _ Hn R) as I.
   destruct I as [Jn Jn1 Jnd Jarr Jcol Jlast Jex Juniq Jthr Jab Jacts].
   destruct (Nat.lt_ge_cases t (sn s)) as [Ht|Ht].
   2: { unfold sstep in H. rewrite (Jab t Ht) in H. discriminate. }
@@ -329,15 +340,15 @@ Proof. induction n; intros u Hu; [lia|]. destruct u; cbn; auto. apply IHn. lia. 
     loop of threads waiting for a generation change that has not happened, then every participant has
     completed all K generations: for every n >= 1 and every K the barrier cannot get stuck spinning (the
     spin barrier's form of "no lost wake-up / reusable"; it has no blocking rest states). *)
-Theorem bs_no_livelock : forall n y K s t,
-  1 <= n -> sreachable n y (repeat K n) s ->
+Theorem bs_no_livelock : forall n y sil K s t,
+  1 <= n -> sreachable n y sil (repeat K n) s ->
   (forall e s', sstep s e = Some s' -> is_spin s e) ->
   t < n -> spc (sthr s t) = SDone /\ sgen (sthr s t) = K.
 Proof.
-  intros n y K s t Hn R Q Ht.
+  intros n y sil K s t Hn R Q Ht.
   assert (Hl : length (repeat K n) = n) by apply repeat_length.
   rewrite <- Hl in R at 1. rewrite <- Hl in Hn.
-  pose proof (SInv_reachable _ _ _ Hn R) as I. rewrite Hl in Hn.
+  pose proof (SInv_reachable _ _ _ _ Hn R) as I. rewrite Hl in Hn.
   assert (Hsn : sn s = n) by (rewrite (j_n _ _ I); exact Hl).
   (* every participant spins in the current generation or is done *)
   assert (B : forall u, u < n ->
@@ -381,7 +392,7 @@ Proof.
     - exfalso.
       destruct (sstep s (u, OStore 1 0)) as [s'|] eqn:Es.
       + destruct (NS _ _ Es) as ([Hc|Hc] & _); discriminate.
-      + unfold sstep in Es. rewrite Hpc in Es. cbn in Es. discriminate.
+      + unfold sstep in Es. rewrite Hpc in Es. cbn in Es. destruct (ssil s (sgen (sthr s u))); discriminate.
     - exfalso.
       destruct (sstep s (u, OAct (sgen (sthr s u)))) as [s'|] eqn:Es.
       + destruct (NS _ _ Es) as ([Hc|Hc] & _); discriminate.
@@ -418,12 +429,12 @@ Definition bs_example_trace : list event :=
     (0, OLoad 0 1); (0, OOut 0); (0, OIn 1); (0, OLoad 0 1); (0, ORmw 1 0 1); (0, OLoad 0 1) ].
 
 Lemma bs_example_aux : forall r : option sstate,
-  r = spinrun (sinit 2 false [2; 2]) bs_example_trace ->
+  r = spinrun (sinit 2 (fun _ _ => false) (fun _ => false) [2; 2]) bs_example_trace ->
   match r with
   | Some s => (sstp s =? 1) && sspinb s 0 && (sgen (sthr s 1) =? 1) && (length (sacts s) =? 1)
   | None => false
   end = true ->
-  exists s, sreachable 2 false [2; 2] s /\ sstp s = 1 /\ sspinb s 0 = true /\ sgen (sthr s 1) = 1.
+  exists s, sreachable 2 (fun _ _ => false) (fun _ => false) [2; 2] s /\ sstp s = 1 /\ sspinb s 0 = true /\ sgen (sthr s 1) = 1.
 Proof.
   intros r R E. destruct r as [s|]; [|discriminate E]. symmetry in R.
   apply andb_prop in E. destruct E as [E E4]. apply andb_prop in E. destruct E as [E E3].
@@ -433,5 +444,5 @@ Proof.
 Qed.
 
 Example bs_reachable_nontrivial :
-  exists s, sreachable 2 false [2; 2] s /\ sstp s = 1 /\ sspinb s 0 = true /\ sgen (sthr s 1) = 1.
+  exists s, sreachable 2 (fun _ _ => false) (fun _ => false) [2; 2] s /\ sstp s = 1 /\ sspinb s 0 = true /\ sgen (sthr s 1) = 1.
 Proof. apply (bs_example_aux _ eq_refl). vm_compute. reflexivity. Qed.
